@@ -44,7 +44,7 @@ func genConfigTrace(r *RNG) *Trace {
 			p.BucketSize = r.Pick(0, 1, 127, 128, 129, 255, 256)
 		}
 		p.MinMatchLen, p.MaxMatchLen = v(), v()
-		p.Cost = r.pickStr("", "XZCost", "XZCost", "other", "xzcost")
+		p.Cost = r.pickStr("", "XZCost", "XZCost", "XZCost", "other", "xzcost", "XZCOST", " XZCost", "XZCost ")
 		t.Cfgs = append(t.Cfgs, p)
 	}
 	return t
@@ -135,6 +135,23 @@ func runConfigTrace(t *Trace, want string) *Result {
 				Msg: fmt.Sprintf("configuration %s: Verify(defaults) error=%v but NewParser error=%v", spec.String(), verr, perr)}
 			break
 		}
+		small := false
+		if verr == nil {
+			c := cfg.Clone()
+			c.SetDefaults()
+			small = tableBytes(c) <= 4<<20
+		}
+		if verr == nil && perr == nil && panicked == "" && small && (t.Seed+uint64(i))%2 == 0 {
+			// clause 2 for arbitrary accepted field combinations: the parser
+			// this configuration gives is driven through a short fixed history
+			// (two feeds of repetitive data, parse to empty, Shrink, Reset with
+			// data, parse again; direct mode, then wrapped)
+			if v := driveAcceptedConfig(spec, t.Seed+uint64(i), res); v != nil {
+				v.Step = i
+				res.Viol = v
+				break
+			}
+		}
 	}
 	res.Ticks = clk.ticks
 	res.OpsDone = len(res.Obs)
@@ -143,6 +160,49 @@ func runConfigTrace(t *Trace, want string) *Result {
 		res.Viol = nil
 	}
 	return res
+}
+
+// driveAcceptedConfig runs the parser of an accepted configuration through a
+// short history with the parser-world executor (all C16 clauses: panic, tick
+// budget, undocumented errors, no progress) and returns its violation, if any.
+func driveAcceptedConfig(spec ParserSpec, seed uint64, res *Result) *Violation {
+	r := NewRNG(seed ^ 0x6472697665)
+	data := genInput(r, 700, []string{"copyback", "runs", "periodic", "iid2"}[r.Intn(4)])
+	parses := func(n int) []Op {
+		ops := make([]Op, n)
+		for i := range ops {
+			ops[i] = Op{K: "Parse", Re: i%2 == 0}
+			if i%3 == 2 {
+				ops[i].F = lz.NoTrailingLiterals
+			}
+		}
+		return ops
+	}
+	for _, target := range []string{"", "wrap"} {
+		sp := spec
+		sp.Target = target
+		tr := &Trace{World: "parser", Prop: "C16", P: &sp, Input: data}
+		if target == "wrap" {
+			for i := 0; i < 40; i++ {
+				tr.Ops = append(tr.Ops, Op{K: "WParse", Re: i%2 == 0})
+			}
+		} else {
+			tr.Ops = append(tr.Ops, Op{K: "Write", N: 300})
+			tr.Ops = append(tr.Ops, parses(12)...)
+			tr.Ops = append(tr.Ops, Op{K: "Shrink"}, Op{K: "Write", N: 200})
+			tr.Ops = append(tr.Ops, parses(8)...)
+			tr.Ops = append(tr.Ops, Op{K: "Reset", N: 150, X: 1})
+			tr.Ops = append(tr.Ops, parses(6)...)
+		}
+		sub := runParserTrace(tr, "C16", nil, 0, 0)
+		res.Probes["cfg_driven"]++
+		res.Ticks += sub.Ticks
+		if sub.Viol != nil {
+			return &Violation{Prop: "C16", Clause: "accepted_config_" + sub.Viol.Clause,
+				Msg: fmt.Sprintf("configuration %s (accepted by Verify and NewParser), %s mode, operation %d: %s", spec.String(), map[string]string{"": "direct", "wrap": "wrapped"}[target], sub.Viol.Step, sub.Viol.Msg)}
+		}
+	}
+	return nil
 }
 
 // ---------------------------------------------------------------------------
@@ -196,7 +256,7 @@ func runC08(t *Trace) *Result {
 // C13
 
 func genC13(r *RNG, tier string, run int) *Trace {
-	if run%3 == 2 {
+	if run%3 == 2 || run%12 == 0 {
 		return genMultiTrace(r, tier)
 	}
 	if run%12 == 1 || run%12 == 7 || run%12 == 10 {
